@@ -82,7 +82,7 @@ Definition fm_inv (fuel : nat) (y : Z) : option Z :=
   | None => None
   end.
 Definition fm_div (fuel : nat) (y z : Z) : option Z :=
-  match fm_inv fuel z with Some iz => Some (fm_mul iz y) | None => None end.
+  match fm_inv fuel z with Some iz => Some (fm_mul y iz) | None => None end.      (* mul(x, y, inv(iz, z)) *)
 Definition fm_divin (fuel : nat) (x y : Z) : option Z :=
   match fm_inv fuel y with Some iy => Some (fm_mul x iy) | None => None end.
 (* Modular_implem::isUnit: mOne = (Element)(p - (Element)1) *)
@@ -176,7 +176,7 @@ Definition ex_maxpy (a x y : Z) : Z := ex_sub y (ex_mul a x).
 Definition ex_inv (fuel : nat) (y : Z) : option Z :=
   match feuclid pe fuel y p with Some (x, _) => Some (if x <? 0 then r_ (x + p) else x) | None => None end.
 Definition ex_div (fuel : nat) (a b : Z) : option Z :=
-  match ex_inv fuel b with Some ib => Some (ex_mul ib a) | None => None end.
+  match ex_inv fuel b with Some ib => Some (ex_mul a ib) | None => None end.      (* mul(r, a, inv(ib, b)) *)
 Definition ex_divin (fuel : nat) (r y : Z) : option Z :=
   match ex_inv fuel y with Some iy => Some (ex_mul r iy) | None => None end.
 Definition ex_isUnit (fuel : nat) (a : Z) : option bool :=
@@ -190,7 +190,8 @@ Let wr (z : Z) : Z := z mod 2 ^ w.
 Let wr2 (z : Z) : Z := z mod 2 ^ (2 * w).
 (* _mul: lmul into Compute_t then mod_n   |   mul (truncating) then mod_n *)
 Definition ru_mul (a b : Z) : Z := if dbl then wr (wr2 (a * b) mod p) else wr (a * b) mod p.
-Definition ru_sub (a b : Z) : Z := if a <? b then wr (wr (p - b) + a) else wr (a - b).
+(* const bool lt = (a < b); RecInt::sub(r, a, b); if (lt) RecInt::add(r, _p);   -- the difference wraps when a < b *)
+Definition ru_sub (a b : Z) : Z := let r := wr (a - b) in if a <? b then wr (r + p) else r.
 Definition ru_subin (r a : Z) : Z := if r <? a then wr (r + wr (p - a)) else wr (r - a).
 Definition ru_add (a b : Z) : Z := let r := wr (a + b) in if p <=? r then wr (r - p) else r.
 Definition ru_neg (a : Z) : Z := if a =? 0 then 0 else wr (p - a).
@@ -198,7 +199,7 @@ Definition ru_axpy (a b c : Z) : Z :=
   if dbl then ru_add (ru_mul a b) c        (* lmul; mod_n; add(r,c); if (r >= p) sub(r,p) *)
   else wr (c + a * b) mod p.               (* copy(r,c); addmul(r,a,b); mod_n(r,p) *)
 Definition ru_maxpy (a b c : Z) : Z := ru_sub c (ru_mul a b).
-Definition ru_axmy (a b c : Z) : Z := ru_subin (ru_mul a b) c.
+Definition ru_axmy (a b c : Z) : Z := ru_sub (ru_mul a b) c.
 Definition ru_maxpyin (r a b : Z) : Z :=
   if dbl then ru_subin r (ru_mul a b)      (* same shape: if (r < tmp) { tmp = p - tmp; r += tmp } else r -= tmp *)
   else ru_neg (wr (ru_neg r + a * b) mod p).
